@@ -1099,7 +1099,9 @@ func (c *Conn) readHandshake(transcript transcriptHash) (any, error) {
 	// hasVers indicates we're past the first message, forcing someone trying to
 	// make us just allocate a large buffer to at least do the initial part of
 	// the handshake first.
-	if c.haveVers && data[0] == typeCertificate {
+	// [uTLS] a compressed certificate message (RFC 8879) carries a certificate
+	// message and gets the same limit.
+	if c.haveVers && (data[0] == typeCertificate || data[0] == utlsTypeCompressedCertificate) {
 		// Since certificate messages are likely to be the only messages that
 		// can be larger than maxHandshake, we use a special limit for just
 		// those messages.
